@@ -555,6 +555,73 @@ func foreignTables(repo string) (string, error) {
 		}
 	}
 
+	// ---- decisions of the document translation (Foreign/ImportSpec.v)
+	var convertShape, arrayRule, findShape, sortPropsShape, sortTypesShape, objectTail []string
+	if lg, err := parseGo(repo, "pkg/importer/openapi3_legacy.go"); err == nil {
+		if fd := ftFunc(lg, "OpenAPI3Importer", "convertSpec"); fd == nil {
+			unk("convertSpec not found")
+		} else {
+			for _, st := range fd.Body.List {
+				line := ftSrc(lg.fset, st)
+				if rs, ok := st.(*ast.RangeStmt); ok && ftSrc(lg.fset, rs.X) == "spec.Components.Schemas" {
+					convertShape = append(convertShape, line)
+				} else if strings.Contains(line, "o.types.Sort()") || strings.HasPrefix(line, "o.types = ") {
+					convertShape = append(convertShape, line)
+				}
+			}
+		}
+		if fd := ftFunc(lg, "OpenAPI3Importer", "typeAliasForSchema"); fd == nil {
+			unk("typeAliasForSchema not found")
+		} else {
+			arrayRule = append(arrayRule, ftStmts(lg, fd.Body.List)...)
+		}
+		if fd := ftFunc(lg, "OpenAPI3Importer", "buildField"); fd == nil {
+			unk("buildField not found")
+		} else {
+			for _, st := range fd.Body.List {
+				if line := ftSrc(lg.fset, st); strings.Contains(line, "isArray") && !strings.Contains(line, "OpenAPI_OBJECT") {
+					arrayRule = append(arrayRule, line)
+				}
+			}
+		}
+		if fd := ftFunc(lg, "OpenAPI3Importer", "loadTypeSchema"); fd != nil {
+			ast.Inspect(fd.Body, func(x ast.Node) bool {
+				cc, ok := x.(*ast.CaseClause)
+				if !ok {
+					return true
+				}
+				for i, st := range cc.Body {
+					if rs, ok := st.(*ast.RangeStmt); ok && ftSrc(lg.fset, rs.X) == "schema.Properties" {
+						objectTail = ftStmts(lg, cc.Body[i+1:])
+					}
+				}
+				return true
+			})
+			if objectTail == nil {
+				unk("loadTypeSchema: nothing after the properties loop")
+			}
+		}
+	}
+	if ty, err := parseGo(repo, "pkg/importer/types.go"); err != nil {
+		unk("types.go: %v", err)
+	} else {
+		if fd := ftFunc(ty, "TypeList", "Find"); fd == nil {
+			unk("TypeList.Find not found")
+		} else {
+			findShape = ftStmts(ty, fd.Body.List)
+		}
+		if fd := ftFunc(ty, "FieldList", "SortWithoutDupl"); fd == nil {
+			unk("SortWithoutDupl not found")
+		} else {
+			sortPropsShape = ftStmts(ty, fd.Body.List)
+		}
+		if fd := ftFunc(ty, "TypeList", "Sort"); fd == nil {
+			unk("TypeList.Sort not found")
+		} else {
+			sortTypesShape = ftStmts(ty, fd.Body.List)
+		}
+	}
+
 	// ---- utils.Contains, parse.MustUnescape
 	var containsShape, mustShape []string
 	if ents, err := os.ReadDir(filepath.Join(repo, "pkg/utils")); err != nil {
@@ -746,6 +813,12 @@ func foreignTables(repo string) (string, error) {
 	fmt.Fprintf(&o, "Definition quote_shape : list string :=\n  %s.\n", ftList(quoteShape))
 	fmt.Fprintf(&o, "Definition field_name_shape : list string :=\n  %s.\n", ftList(fieldShape))
 	fmt.Fprintf(&o, "Definition required_rule : list string :=\n  %s.\n", ftList(reqRule))
+	fmt.Fprintf(&o, "Definition convert_shape : list string :=\n  %s.\n", ftList(convertShape))
+	fmt.Fprintf(&o, "Definition array_rule : list string :=\n  %s.\n", ftList(arrayRule))
+	fmt.Fprintf(&o, "Definition object_tail : list string :=\n  %s.\n", ftList(objectTail))
+	fmt.Fprintf(&o, "Definition find_shape : list string :=\n  %s.\n", ftList(findShape))
+	fmt.Fprintf(&o, "Definition sort_props_shape : list string :=\n  %s.\n", ftList(sortPropsShape))
+	fmt.Fprintf(&o, "Definition sort_types_shape : list string :=\n  %s.\n", ftList(sortTypesShape))
 	fmt.Fprintf(&o, "Definition contains_shape : list string :=\n  %s.\n", ftList(containsShape))
 	fmt.Fprintf(&o, "Definition must_unescape_shape : list string :=\n  %s.\n", ftList(mustShape))
 	fmt.Fprintf(&o, "Definition builtin_types : list string :=\n  %s.\n", ftList(builtins))
